@@ -10,6 +10,7 @@ import (
 	"runtime/debug"
 	"sort"
 	"strings"
+	"sync/atomic"
 	"testing"
 	"testing/synctest"
 	"time"
@@ -180,6 +181,17 @@ func hashU32(a []uint32) string {
 	return hex.EncodeToString(h.Sum(nil)[:8])
 }
 
+// CurrentRun is what the wall-clock watchdog reports when a run stops making
+// progress (a CPU loop inside the code under test never reaches a hook).
+type CurrentRun struct {
+	Spec  RunSpec
+	Start time.Time
+	W, S  *simrt.Tape
+	Desc  any
+}
+
+var Current atomic.Pointer[CurrentRun]
+
 // Execute runs one simulated run inside its own bubble.
 func Execute(t *testing.T, spec RunSpec) (res RunResult) {
 	res.Prop, res.Index = spec.Prop, spec.Index
@@ -221,6 +233,7 @@ func Execute(t *testing.T, spec RunSpec) (res RunResult) {
 		}
 		w := mk()
 		w.Build(wt, spec)
+		Current.Store(&CurrentRun{Spec: spec, Start: wallNow(), W: wt, S: st, Desc: w.Describe()})
 		s := simrt.NewSched(st)
 		s.Logging = spec.Log
 		start := time.Now()
@@ -300,3 +313,7 @@ func drawGrid(t *simrt.Tape, maxUs int64) int64 {
 	}
 	return Grid[t.Draw(n)]
 }
+
+// wallNow is the real wall clock; inside a bubble time.Now is the fake clock,
+// so the watchdog keeps its own reference outside.
+var wallNow = func() time.Time { return time.Time{} }
